@@ -19,7 +19,12 @@ use std::sync::atomic::{AtomicU64, Ordering};
 use std::time::{Duration, Instant};
 
 pub const VERIF_ROOT: &str = "/verif";
+/// a case that burns more than this much CPU time of its worker process has failed to terminate (the budget is CPU
+/// time, not wall-clock time: on a loaded machine a case that needs a second can sit unscheduled for many)
 pub const CASE_TIMEOUT_S: u64 = 10;
+/// ... and so has one that is still not done after this much wall-clock time (blocked rather than busy; cases that
+/// wait for child processes spend their time there)
+pub const CASE_WALL_TIMEOUT_S: u64 = 300;
 pub const WORKER_AS_LIMIT: u64 = 4 << 30;
 
 #[derive(Debug, Clone, Copy, PartialEq, Eq)]
@@ -349,6 +354,14 @@ fn phase_name(raw: u64) -> String {
     }
 }
 static CUR_START_MS: AtomicU64 = AtomicU64::new(0);
+static CUR_START_CPU_MS: AtomicU64 = AtomicU64::new(0);
+
+/// CPU time consumed by this process so far (all threads)
+fn cpu_ms() -> u64 {
+    let mut ts = libc::timespec { tv_sec: 0, tv_nsec: 0 };
+    unsafe { libc::clock_gettime(libc::CLOCK_PROCESS_CPUTIME_ID, &mut ts) };
+    ts.tv_sec as u64 * 1000 + ts.tv_nsec as u64 / 1_000_000
+}
 
 fn now_ms() -> u64 {
     use std::sync::OnceLock;
@@ -387,6 +400,7 @@ impl<'a> WorkerState<'a> {
 
     fn execute(&mut self, idx: u64, case: Value) {
         CUR_START_MS.store(now_ms(), Ordering::SeqCst);
+        CUR_START_CPU_MS.store(cpu_ms(), Ordering::SeqCst);
         CUR_IDX.store(idx, Ordering::SeqCst);
         CUR_PHASE.store(0, Ordering::SeqCst);
         if self.isolated {
@@ -541,7 +555,10 @@ pub fn worker_main(prop: &dyn Prop, tier: Tier, seed: u64, a: WorkerArgs) -> i32
                 continue;
             }
             let started = CUR_START_MS.load(Ordering::SeqCst);
-            if now_ms().saturating_sub(started) > CASE_TIMEOUT_S * 1000 && CUR_IDX.load(Ordering::SeqCst) == idx {
+            let started_cpu = CUR_START_CPU_MS.load(Ordering::SeqCst);
+            let busy_too_long = cpu_ms().saturating_sub(started_cpu) > CASE_TIMEOUT_S * 1000;
+            let stuck_too_long = now_ms().saturating_sub(started) > CASE_WALL_TIMEOUT_S * 1000;
+            if (busy_too_long || stuck_too_long) && CUR_IDX.load(Ordering::SeqCst) == idx {
                 if let Ok(f) = std::fs::OpenOptions::new().write(true).open(&progress_path) {
                     let mut buf = [0u8; 24];
                     buf[..8].copy_from_slice(&idx.to_le_bytes());
@@ -823,7 +840,7 @@ fn run_shard(
             known,
             count: 0,
             first_idx: idx,
-            what: format!("{kind} ({how}) while running the case (cap {CASE_TIMEOUT_S}s / {} GiB)", WORKER_AS_LIMIT >> 30),
+            what: format!("{kind} ({how}) while running the case (cap {CASE_TIMEOUT_S}s of CPU time / {} GiB)", WORKER_AS_LIMIT >> 30),
             detail: Value::Null,
             case: case.clone(),
         });
@@ -915,8 +932,11 @@ pub fn replay_main(prop: &dyn Prop, path: &str) -> i32 {
         let id = prop.id().to_string();
         let path = path.to_string();
         std::thread::spawn(move || {
-            std::thread::sleep(Duration::from_secs(CASE_TIMEOUT_S));
-            println!("REPLAY-VIOLATION signature=hang :: no result after {CASE_TIMEOUT_S}s");
+            let (t0, c0) = (now_ms(), cpu_ms());
+            while cpu_ms().saturating_sub(c0) <= CASE_TIMEOUT_S * 1000 && now_ms().saturating_sub(t0) <= CASE_WALL_TIMEOUT_S * 1000 {
+                std::thread::sleep(Duration::from_millis(250));
+            }
+            println!("REPLAY-VIOLATION signature=hang :: no result after {CASE_TIMEOUT_S}s of CPU time");
             println!("VIOLATION property={id} replay={path}");
             unsafe { libc::_exit(1) };
         });
